@@ -1,0 +1,28 @@
+//go:build verif
+
+package base
+
+// Contracts for property C03: base.Set operations used by the channel/access computations.
+// Comment-only; read by /verif/engine.
+
+//@ props C03
+
+//@ props C03 C02
+//@ func Set.Contains
+//@   safety on
+//@   ensures[none]   !result ==> (forall i int :: {ch[i]} 0 <= i && i < len(ch) ==> !(ch[i] in set))
+//@   ensures[some]   result ==> (exists i int :: {ch[i]} 0 <= i && i < len(ch) && (ch[i] in set))
+//@   ensures[single] len(ch) == 1 ==> (result <==> (ch[0] in set))
+//@   loop 1 invariant[none] forall i int :: {ch[i]} 0 <= i && i <= #index ==> !(ch[i] in set)
+
+//@ props C03 C02
+//@ func SetFromArray
+//@   safety on
+//@   ensures[fresh] result != nil && !old(allocated(now(result)))
+//@   ensures[sound]    forall k string :: {k in result} (k in result) ==> elem(names, k)
+//@   ensures[complete] forall i int :: {names[i]} 0 <= i && i < len(names) ==> (names[i] in result)
+//@   ensures[empty]    len(names) == 0 ==> len(result) == 0
+//@   loop 1 invariant[idx]      #index < len(names)
+//@   loop 1 invariant[empty]    #index == -1 ==> len(result) == 0
+//@   loop 1 invariant[sound]    forall k string :: {k in result} (k in result) ==> (exists i int :: {names[i]} 0 <= i && i <= #index && names[i] == k)
+//@   loop 1 invariant[complete] forall i int :: {names[i]} 0 <= i && i <= #index ==> (names[i] in result)
